@@ -97,6 +97,10 @@ def gen_case(r):
     route = r.choice(['map-new'] * 5 + ['raw-append', 'raw-append', 'raw-insert0', 'lead-comment', 'trail-comment', 'lead-comment', 'construct', 'map-existing'])
     case['route'] = route
     case['touch_first'] = r.random() < 0.4
+    if case['owner'] == 'posting' and r.random() < 0.3:
+        # the posting's own indent is changed after parsing (value setter, or the Indent node replaced): the rule uses
+        # the parent indent current at insertion time
+        case['reindent'] = [r.choice(['value', 'node']), r.choice(POSTING_INDENTS)]
     if route.startswith('raw'):
         case['raw_indent'] = r.choice(RAW_INDENTS)
     if route.endswith('comment'):
@@ -215,6 +219,12 @@ def run_case(case, lock=None, count=None):
     if isinstance(entry, models.Transaction):
         for p in entry.raw_postings:
             p.indent_by = iby
+    if case.get('reindent') and case['owner'] == 'posting':
+        how, new = case['reindent']
+        if how == 'value':
+            owner.indent = new
+        else:
+            owner.raw_indent = models.Indent.from_value(new)
     parent_indent = owner.indent if case['owner'] == 'posting' else None
     siblings = [x.indent for x in owner.raw_meta]
     before_ind = indent_tokens(f.token_store)
